@@ -331,6 +331,26 @@ def run(p, report, tier):
                 "its previous value and the grant indicator", floor=8)
     report.rule("R4.4", "update redefines every attribute that seeds a running estimate from a value that depends on "
                 "queried_indices (observation counters: on the number of candidates)", floor=8)
+    report.rule("R4.5", "the budget the guards compare with (self.budget_) is re-derived from the constructor parameter "
+                "on every validation: no store of it sits under a hasattr(self, 'budget_') test, so lowering the "
+                "budget with set_params takes effect", floor=2)
+    n45 = 0
+    for f in p.all_functions():
+        if "/tests/" in f.file or f.cls is None:
+            continue
+        tree_f = None
+        for st in ast.walk(f.node):
+            if isinstance(st, ast.Assign) and any(isinstance(t, ast.Attribute) and isinstance(t.value, ast.Name)
+                                                  and t.value.id == "self" and t.attr == "budget_" for t in st.targets):
+                if tree_f is None:
+                    tree_f = FuncTree(f.node)
+                guarded = [owner for (s_, owner, field, idx) in tree_f.ancestors(st) if isinstance(owner, ast.If)
+                           and "hasattr" in ast.unparse(owner.test) and "budget_" in ast.unparse(owner.test)]
+                n45 += 1
+                report.add("R4.5", f.qual, f"`{norm_stmt(st, 60)}` re-derived on every validation", f"{f.file}:{st.lineno}",
+                           not guarded, detail="unconditional w.r.t. an earlier value" if not guarded else
+                           "budget_ is frozen at the first call: a budget lowered later with set_params is ignored and "
+                           "labels are granted above it")
     ents = entities(p)
     if len(ents) < 8:
         raise AnalysisError(f"C04: {len(ents)} budget entities found, expected 8")
